@@ -250,3 +250,82 @@ func VerifC07_Lock64() {
 	vcheck("same-bit-again", b == k && l.locks.bits == ^uint64(0))
 	vreach("exhausted")
 }
+
+// ---- C07-H3: while a query is open every structural operation panics without effect;
+// reads, writes through component pointers, Set, event emission and further queries work;
+// the world unlocks exactly when the last query is closed.
+func vLockedWorld(kind int, op int) {
+	vMode = 0
+	W := vShapeFor(kind)
+	f := NewFilter1[vPos](W.w)
+	q := f.Query()
+	vcheck("locked-by-open-query", W.w.IsLocked())
+	q.Next()
+	p := q.Get()
+	vLocked = true
+	W.applyOp(op, "locked")
+	// allowed while locked
+	x := vU32("x")
+	j := W.indexOf(q.Entity())
+	vcheck("write-through-query-pointer-works", !vpanics(func() { p.X = x }))
+	if j >= 0 {
+		W.e[j].pos.X = x
+	}
+	vcheck("nested-query-and-count-work", !vpanics(func() {
+		q2 := NewUnsafeFilter(W.w, W.id[cA]).Query()
+		_ = q2.Count()
+		q2.Close()
+	}))
+	vcheck("emit-works", !vpanics(func() { W.w.Event(3).Emit(Entity{}) }))
+	vcheck("still-locked", W.w.IsLocked())
+	W.checkAll("locked/after")
+	q.Close()
+	vLocked = false
+	vcheck("unlocked-after-close", !W.w.IsLocked())
+	q.Close()
+	vcheck("second-close-harmless", !W.w.IsLocked())
+	W.checkAll("unlocked")
+	vreach("end")
+}
+
+func VerifC07_LockedNew()          { vLockedWorld(0, 0) }
+func VerifC07_LockedAdd()          { vLockedWorld(0, 1) }
+func VerifC07_LockedRemove()       { vLockedWorld(0, 2) }
+func VerifC07T_LockedExchange()    { vLockedWorld(1, 3) }
+func VerifC07_LockedSetRelations() { vLockedWorld(1, 4) }
+func VerifC07_LockedRemoveEntity() { vLockedWorld(1, 5) }
+func VerifC07_LockedCopy()         { vLockedWorld(0, 6) }
+func VerifC07_LockedSet()          { vLockedWorld(0, 7) }
+func VerifC07_LockedShrink()       { vLockedWorld(0, 8) }
+
+// batch operations, Reset, NewEntities and registration of a new component type
+func VerifC07_LockedBatchAndReset() {
+	vMode = 0
+	W := vShapeFor(1)
+	q := NewFilter1[vPos](W.w).Query()
+	vLocked = true
+	all := NewFilter1[vPos](W.w)
+	which := vPick("call", 7)
+	W.expectReject("locked/batch", func() {
+		switch which {
+		case 0:
+			W.w.RemoveEntities(all.Batch(), nil)
+		case 1:
+			NewMap1[vVel](W.w).AddBatch(all.Without(C[vVel]()).Batch(), &vVel{1})
+		case 2:
+			NewMap1[vPos](W.w).RemoveBatch(all.Batch(), nil)
+		case 3:
+			W.w.Reset()
+		case 4:
+			W.w.NewEntities(2, nil)
+		case 5:
+			_ = ComponentID[vRes](W.w)
+		case 6:
+			NewMap1[vChild](W.w).SetRelationsBatch(NewFilter1[vChild](W.w).Batch(), nil, RelIdx(0, Entity{}))
+		}
+	})
+	q.Close()
+	vLocked = false
+	W.checkAll("unlocked")
+	vreach("end")
+}
